@@ -42,12 +42,16 @@ def mod_source(i, succ):
         lines.append(f"def via_{i}_{j}() do require M{j}; "
                      f"M{j}->bump_{j}() end;")
     lines.append(f"def probe_{i}() probe_importer;")
+    # a default that refers to private module state is evaluated in the
+    # module's scope, whoever calls
+    lines.append(f"def _rate_{i} = 3;")
+    lines.append(f"def scaled_{i}(x, factor = _rate_{i}) x * factor;")
     return "\n".join(lines) + "\n"
 
 
 def public_names(i, succ):
     return {f"pub_{i}", f"f_{i}", f"counter_{i}", f"bump_{i}",
-            f"probe_{i}"} | {f"via_{i}_{j}" for j in succ}
+            f"probe_{i}", f"scaled_{i}"} | {f"via_{i}_{j}" for j in succ}
 
 
 def write_graph(graph, where="home"):
@@ -77,7 +81,7 @@ def commands(graph, targets):
         slim, targets = True, targets[1:]
     for t in targets:
         for c in ("r", "ra", "ru", "ri", "ria", "rp", "b", "ba", "bu", "c",
-                  "p", "pr", "rf", "re", "re2", "rpa", "riu", "ms", "cm",
+                  "p", "pr", "sc", "rf", "re", "re2", "rpa", "riu", "ms", "cm",
                   "cma"):
             if slim and c not in SLIM:
                 continue
@@ -113,6 +117,7 @@ def command_text(graph, cmd):
         "c": f"M{t}->counter_{t}[0]",
         "p": f"M{t}->_p_{t}",
         "pr": f"M{t}->probe_{t}()",
+        "sc": f"M{t}->scaled_{t}(2)",
         "rf": f"def rq{t}() do require M{t}; M{t}->bump_{t}() end; rq{t}()",
         # issued through interpret(.., environment=E): E persistent / fresh
         "re": f"require M{t}; M{t}->bump_{t}()",
@@ -234,7 +239,7 @@ class Importer(e4.Explorer):
                     m.names[n] = tag
                     m.written.discard(n)      # a require binds a new object
                 resp = ["value", "NULL"]
-            elif c in ("b", "c", "p", "pr", "via"):
+            elif c in ("b", "c", "p", "pr", "sc", "via"):
                 if m.names.get(f"M{t}") != ("mod", t):
                     resp = ERR
                 elif c == "b":
@@ -245,6 +250,8 @@ class Importer(e4.Explorer):
                     resp = ["value", "NULL"]
                 elif c == "pr":
                     resp = ERR
+                elif c == "sc":
+                    resp = ["value", "6"]
                 else:
                     j = g[t][0]
                     m.load(j, [])
